@@ -408,6 +408,9 @@ func runReader(tb ev.TB, c readerCase) (labels []string, nontrivial bool) {
 			return &fakecluster.Action{NoResponse: true, Tag: "stall"}
 		case c.BrokerState == "stall-commit" && r.ApiKey == 8:
 			return &fakecluster.Action{NoResponse: true, Tag: "stall"}
+		case c.BrokerState == "stall-leave" && r.ApiKey == 13:
+			// the coordinator never answers LeaveGroup: Close gives up after the group's Timeout
+			return &fakecluster.Action{NoResponse: true, Tag: "stall"}
 		case c.BrokerState == "slow":
 			return &fakecluster.Action{Delay: 3 * time.Millisecond, Tag: "slow"}
 		}
@@ -674,7 +677,7 @@ func runReader(tb ev.TB, c readerCase) (labels []string, nontrivial bool) {
 	} else {
 		labels = append(labels, "plain_reader")
 	}
-	if c.BrokerState == "stall-fetch" || c.BrokerState == "stall-heartbeat" || c.BrokerState == "stall-commit" {
+	if c.BrokerState == "stall-fetch" || c.BrokerState == "stall-heartbeat" || c.BrokerState == "stall-commit" || c.BrokerState == "stall-leave" {
 		labels = append(labels, "blackholed_broker")
 	}
 	if c.Event == "cancel" && c.Blocked == "fetch" {
@@ -692,7 +695,7 @@ func TestReaderClose(t *testing.T) {
 			FetchFirst:  rapid.IntRange(0, 5).Draw(t, "fetchFirst"),
 			Blocked:     rapid.SampledFrom([]string{"fetch", "fetch", "commit", "none"}).Draw(t, "blocked"),
 			Event:       rapid.SampledFrom([]string{"close", "close", "cancel"}).Draw(t, "event"),
-			BrokerState: rapid.SampledFrom([]string{"normal", "normal", "normal", "normal", "normal", "slow", "slow", "slow", "stall-fetch", "stall-heartbeat", "stall-commit", "stall-commit", "coord-error", "coord-error"}).Draw(t, "broker"),
+			BrokerState: rapid.SampledFrom([]string{"normal", "normal", "normal", "normal", "normal", "slow", "slow", "slow", "stall-fetch", "stall-heartbeat", "stall-commit", "stall-commit", "stall-leave", "coord-error", "coord-error"}).Draw(t, "broker"),
 			CommitMs:    rapid.SampledFrom([]int{0, 0, 10}).Draw(t, "commitMs"),
 			DelayUs:     rapid.SampledFrom([]int{0, 100, 2000, 30000}).Draw(t, "delayUs"),
 		}
@@ -863,6 +866,8 @@ func runGroup(tb ev.TB, c groupCase) (labels []string, nontrivial bool) {
 			syncErrs++
 			return &fakecluster.Action{ErrorCode: 27, Tag: "sync-error"}
 		case c.BrokerState == "heartbeat-stall" && r.ApiKey == 12:
+			return &fakecluster.Action{NoResponse: true, Tag: "stall"}
+		case c.BrokerState == "leave-stall" && r.ApiKey == 13:
 			return &fakecluster.Action{NoResponse: true, Tag: "stall"}
 		case c.BrokerState == "slow":
 			return &fakecluster.Action{Delay: 3 * time.Millisecond, Tag: "slow"}
@@ -1038,7 +1043,7 @@ func TestGroupClose(t *testing.T) {
 	rapid.Check(t, func(t *rapid.T) {
 		c := groupCase{
 			Members:     rapid.IntRange(1, 3).Draw(t, "members"),
-			BrokerState: rapid.SampledFrom([]string{"normal", "normal", "normal", "coord-error", "join-stall", "sync-error", "heartbeat-stall", "slow"}).Draw(t, "broker"),
+			BrokerState: rapid.SampledFrom([]string{"normal", "normal", "normal", "coord-error", "join-stall", "sync-error", "heartbeat-stall", "leave-stall", "slow"}).Draw(t, "broker"),
 			ClosePoint:  rapid.SampledFrom([]string{"during-next", "in-generation", "in-generation", "after-fn-exit", "error-pending"}).Draw(t, "closePoint"),
 			DelayUs:     rapid.SampledFrom([]int{0, 100, 2000, 15000, 60000}).Draw(t, "delayUs"),
 			Fns:         rapid.IntRange(0, 3).Draw(t, "fns"),
